@@ -306,6 +306,8 @@ def run_check(prop: str, tier: str, seed: int, workers: int | None = None, runs:
                 classes.setdefault(ck, []).append((r["index"], v))
 
         shrink_budget = int(getattr(mod, "SHRINK_BUDGET", {"quick": 24, "thorough": 80}).get(tier, 24))
+        if os.environ.get("VERIF_NO_SHRINK"):  # detection-only runs against seeded changes (tools/try_seeded.sh)
+            shrink_budget = 0
         n_viol, n_known = 0, 0
         for (monitor, kid), members in sorted(classes.items(), key=lambda kv: (kv[0][0], str(kv[0][1]))):
             idx, v = members[0]
